@@ -41,13 +41,11 @@ func checkC02(c *Ctx) {
 	if !a.anchors() {
 		return
 	}
-	a.r1r2classifier()
-	a.r2polygonal()
+	c02model(c, a)
 	a.r3prefilter()
-	a.r4receivers()
 	a.r5exits()
-	c.Floor("C02.R1", 2)
-	c.Floor("C02.R2", 2)
+	c.Floor("C02.R1", 1)
+	c.Floor("C02.R2", 1)
 	c.Floor("C02.R3", 1)
 	c.Floor("C02.R4", 4)
 	c.Floor("C02.R5", 2)
